@@ -1384,6 +1384,15 @@ func (w *World) lookupType(q string) types.Type {
 			}
 		}
 	}
+	// a type of a dependency (known through export data)
+	if tp := w.typesPkg(pk); tp != nil {
+		if o := tp.Scope().Lookup(name); o != nil {
+			if ptr {
+				return types.NewPointer(o.Type())
+			}
+			return o.Type()
+		}
+	}
 	return nil
 }
 
